@@ -1,0 +1,14 @@
+//go:build verif
+
+package engine
+
+// VerifCloseShardFirst closes the shard and then its index builder - the order of DBPTInfo.closeDBPt (VerifShard.Close
+// uses the order of the package tests' closeShard: index builder first). Verification hook for C01: a clean shutdown while
+// the asynchronous log replay is still running. Thin wrapper, no behaviour of its own.
+func (v *VerifShard) VerifCloseShardFirst() error {
+	err := v.sh.Close()
+	if e := v.sh.indexBuilder.Close(); err == nil {
+		err = e
+	}
+	return err
+}
